@@ -1,6 +1,7 @@
 package tso
 
 import (
+	"context"
 	"time"
 
 	"github.com/pingcap/kvproto/pkg/pdpb"
@@ -387,3 +388,50 @@ var errNotRun = errNotRunT{}
 type errNotRunT struct{}
 
 func (errNotRunT) Error() string { return "not run" }
+
+// VerifTSOUpdater: one round of AllocatorManager.updateAllocator (what the allocator daemon runs every
+// updatePhysicalInterval) on the global allocator from an arbitrary invariant state with an etcd fault: either
+// the update succeeds and the invariants hold, or the allocator group is reset - memory zeroed and the
+// leadership given up - so that nothing is granted from the old memory any more.
+func VerifTSOUpdater() {
+	w := vrfWorldArbitrary(1)
+	to := w.to
+	am := &AllocatorManager{}
+	gta := &GlobalTSOAllocator{allocatorManager: am, leadership: w.ls, timestampOracle: to}
+	ag := &allocatorGroup{dcLocation: GlobalDCLocation, ctx: context.Background(), leadership: w.ls, allocator: gta}
+	am.mu.allocatorGroups = map[string]*allocatorGroup{GlobalDCLocation: ag}
+	am.mu.clusterDCLocations = map[string]*DCLocationInfo{}
+	hadLease := w.ls.Check()
+	W0 := w.savedNs()
+	S0 := vrfStoredWindow(w.store)
+	w.faults(v.Param("faults", 1))
+	failed := false
+	inner := w.store.FaultFn
+	w.store.FaultFn = func(op string) int {
+		k := inner(op)
+		if k != 0 {
+			failed = true
+		}
+		return k
+	}
+	am.wg.Add(1)
+	am.updateAllocator(ag)
+	w.store.FaultFn = nil
+	v.Observe("inited", w.inited())
+	if w.inited() {
+		v.Reach("kept")
+		vrfAssertInv(w, "inv")
+		v.Assert("stored-window-never-below-acknowledged", vrfStoredWindow(w.store) >= W0)
+	} else {
+		v.Reach("reset")
+		// reset only happens on a failed update of a leaseholder; afterwards the lease is given up
+		own := string(w.store.Value(vrfLeaderKey)) == "member-1"
+		v.Assert("reset-only-after-a-failed-update", v.Or(failed, !hadLease, !own))
+		ts, err := gta.GenerateTSO(1)
+		v.Assert("nothing-granted-after-reset", err != nil && ts.Physical == 0)
+	}
+	if failed && hadLease && W0 == S0 {
+		v.Reach("failed")
+	}
+	v.Reach("end")
+}
